@@ -40,7 +40,7 @@ def _has_repeated_structured_var(inp):
     counts = {}
     def walk(x):
         if isinstance(x, str):
-            if x.startswith("?") and x != "?":
+            if x.startswith("?") and x != "?" and not x.startswith("??"):
                 counts[x] = counts.get(x, 0) + 1
         elif isinstance(x, list):
             for y in x:
@@ -58,8 +58,10 @@ def _contains_struct(x):
 
 
 def sig_c03_repeated_structured(oracle, inp, ver):
-    # the model of the documented behaviour itself is order dependent on this input
-    if oracle not in ("det", "probe:concurrent") or ver.get("modelDet") is not False or not ver.get("corr"):
+    # the model of the documented behaviour itself is order dependent on this input; Go re-randomises
+    # the iteration order at every visit of a map, so within one evaluation a sub-pattern may be
+    # visited in several orders and the outcome may be a mixture the model's per-map orders do not list
+    if oracle not in ("det", "probe:concurrent", "corr") or ver.get("modelDet") is not False:
         return False
     if not _has_repeated_structured_var(inp):
         return False
@@ -79,8 +81,31 @@ def _invalid_pattern(p):
     return False
 
 
+def _has_repeated_optional_var(inp):
+    counts = {}
+    def walk(x):
+        if isinstance(x, str):
+            if x.startswith("??"):
+                counts[x] = counts.get(x, 0) + 1
+        elif isinstance(x, list):
+            for y in x:
+                walk(y)
+        elif isinstance(x, dict):
+            for k, y in x.items():
+                walk(k)
+                walk(y)
+    walk(inp.get("p"))
+    return any(c > 1 for c in counts.values())
+
+
+def sig_c03_repeated_optional(oracle, inp, ver):
+    if oracle not in ("det", "probe:concurrent", "corr") or ver.get("modelDet") is not False:
+        return False
+    return _has_repeated_optional_var(inp)
+
+
 def sig_c03_invalid_vs_nomatch(oracle, inp, ver):
-    if oracle not in ("det", "probe:concurrent") or ver.get("modelDet") is not False or not ver.get("corr"):
+    if oracle not in ("det", "probe:concurrent", "corr") or ver.get("modelDet") is not False:
         return False
     if not _invalid_pattern(inp.get("p")):
         return False
@@ -147,6 +172,7 @@ SIGNATURES = {
     "c10-props-shallow-copy": sig_c10_props,
     "c15-delete-then-recreate-within-one-round": sig_c15_resurrect,
     "c03-repeated-variable-structured-values": sig_c03_repeated_structured,
+    "c03-optional-variable-used-at-several-places": sig_c03_repeated_optional,
     "c03-invalid-at-one-key-nonmatching-at-another": sig_c03_invalid_vs_nomatch,
 }
 
